@@ -72,6 +72,12 @@ def main():
         i = p['id']
         if i in CLAIMED:
             tech, text, note, ref = CLAIMED[i]
+            if i in ("C01", "C02", "C12"):
+                tech += "; thorough tier adds coverage-guided fuzzing (libFuzzer target fuzz_history: raw histories, this property's oracle in-target)"
+            elif i in ("C09", "C10", "C16"):
+                tech += "; thorough tier adds coverage-guided fuzzing (libFuzzer targets fuzz_history and fuzz_plan with this property's oracle in-target)"
+            elif i in ("C04", "C05", "C06", "C11", "C14"):
+                tech += "; thorough tier adds coverage-guided fuzzing (libFuzzer target fuzz_plan: bytes decoded into a conformant stream plan, this property's oracle in-target)"
             checks.append({
                 "property_id": i,
                 "quick_cmd": f"./verif.sh check {i} quick",
